@@ -8,6 +8,7 @@ package main
 import (
 	"fmt"
 	"math"
+	"reflect"
 	"strings"
 
 	ad "github.com/pbenner/autodiff"
@@ -191,21 +192,21 @@ func (s *sess) swap() {
 	case "gramSchmidt":
 		s.gs = &gramSchmidt.InSitu{Q: add("Q", s.jm(m, n)), R: add("R", s.jm(m, n))}
 	case "hessenberg":
-		s.hess.H = add("H", s.jm(n, n))
+		s.hess.H = s.jm(n, n)
 		s.hess.U = add("U", s.jm(n, n))
 	case "tridiag":
-		s.tri.A = add("T", s.jm(n, n))
+		s.tri.A = s.jm(n, n)
 		s.tri.U = add("U", s.jm(n, n))
 	case "bidiag":
-		s.bid.A = add("B", s.jm(m, n))
+		s.bid.A = s.jm(m, n)
 		s.bid.U = add("U", s.jm(m, m))
 		s.bid.V = add("V", s.jm(n, n))
 	case "svd":
-		s.sv.A = add("S", s.jm(m, n))
+		s.sv.A = s.jm(m, n)
 		s.sv.U = add("U", s.jm(m, m))
 		s.sv.V = add("V", s.jm(n, n))
 	case "qrAlgorithm":
-		s.qr.H = add("T", s.jm(n, n))
+		s.qr.H = s.jm(n, n)
 		s.qr.U = add("U", s.jm(n, n))
 	case "eigensystem":
 		v := s.jv(n)
@@ -249,7 +250,7 @@ func (s *sess) checkSupplied(f *fails) {
 	for _, b := range s.sup {
 		rm, rv := s.returned(b.name)
 		if b.v != nil {
-			if rv == nil {
+			if isNil(rv) {
 				continue
 			}
 			x, y := getVec(b.v), getVec(rv)
@@ -258,7 +259,7 @@ func (s *sess) checkSupplied(f *fails) {
 			}
 			continue
 		}
-		if rm == nil || isNilMatrix(rm) {
+		if isNil(rm) {
 			continue
 		}
 		x, y := get(b.m), get(rm)
@@ -266,6 +267,15 @@ func (s *sess) checkSupplied(f *fails) {
 			f.add("result-not-in-supplied-buffer", "caller-supplied %s matrix holds %v but %v was returned", b.name, x.V, y.V)
 		}
 	}
+}
+
+// isNil: nil interface or an interface holding a nil pointer (a factor that was not computed)
+func isNil(x any) bool {
+	if x == nil {
+		return true
+	}
+	v := reflect.ValueOf(x)
+	return v.Kind() == reflect.Ptr && v.IsNil()
 }
 
 func sameFloats(x, y []float64) bool {
@@ -278,16 +288,6 @@ func sameFloats(x, y []float64) bool {
 		}
 	}
 	return true
-}
-
-func isNilMatrix(m ad.Matrix) (r bool) {
-	defer func() {
-		if recover() != nil {
-			r = true
-		}
-	}()
-	m.Dims()
-	return false
 }
 
 // call runs the routine once on a with the option tokens opts (and the session's InSitu object).
